@@ -614,11 +614,15 @@ def g_kill(cx):
         h = cx.new_home()
         deny = [cx.data_dir(h)] if where == "cache" else []
         if target == "isa":
-            # arch cache warm, ISA cache absent: cheap way to reach the ISA write
-            cx.run(h, deny=deny)
-            for k, p in cx.pickles(h, where).items():
-                if k == "isa":
-                    os.unlink(p)
+            # arch cache present (the complete file written by the cold reference run), ISA cache absent:
+            # the process then reaches the ISA cache write without parsing the arch model again
+            src = cx.pickles(hA)["arch"]
+            name = os.path.basename(src)
+            if where == "data":
+                shutil.copyfile(src, os.path.join(cx.data_dir(h), name))
+            else:
+                os.makedirs(cx.cache_dir(h), exist_ok=True)
+                shutil.copyfile(src, os.path.join(cx.cache_dir(h), name.lstrip(".")))
         res = cx.run(h, deny=deny, kill=dict(ks, match=stem[target]))
         killed = [e for e in res["events"] if e["ev"] == "killed"]
         if not killed or res["rc"] != 1:
